@@ -228,7 +228,7 @@ Proof.
   - (* nothing accepted: no OACK *)
     apply spec_oack_nil in Eo. rewrite Eo.
     clear Hj. revert Hfirst.
-    match goal with |- context [client_pkts ?t] => destruct (client_pkts t) as [|[| |] q] end;
+    match goal with |- context [client_pkts ?t] => destruct (client_pkts t) as [|[| | |] q] end;
       intros Hfirst; try reflexivity.
     destruct Hfirst.
   - destruct Hfirst as [r Hr]. rewrite Hr.
